@@ -176,6 +176,10 @@ class BinaryOperatorSymbol(LogicSymbol):
 
         if (selidx == 0):
             y = -y
+        elif (selidx >= 2):
+            # a third input (the carry in of Add) enters at the left-most point of the circle,
+            # between the two operands; it used to share the pin of the second operand
+            return (0, LogicSymbol.namemargin + 25)
 
         return (25-x, LogicSymbol.namemargin + 25 + y)
 
